@@ -335,27 +335,10 @@ theorem AppliesProc.iff_loop {σ p args env r σ'} :
 
 /-! ## tail expressions -/
 
-/-- the expressions `es` evaluate in order, each to some value (which is dropped), from `σ` to `σ'` -/
-inductive EvalsSeq (ρ : Nat) : Store → List Expr → Store → Prop
-  | nil {σ} : EvalsSeq ρ σ [] σ
-  | cons {σ e v σ₁ es σ'} (h : Evals σ ρ e (.ok v) σ₁) (ht : EvalsSeq ρ σ₁ es σ') : EvalsSeq ρ σ (e :: es) σ'
-
 theorem EvalsSeq.depthOk {ρ σ es σ'} (h : EvalsSeq ρ σ es σ') : DepthOk σ σ' := by
   induction h with
   | nil => exact .refl _
   | cons h _ ih => exact h.depthOk.trans ih
-
-/-- the body of a procedure: everything before the last expression is evaluated for effect, the
-last expression as a tail expression -/
-theorem EvalsBody.seq_last {ρ σ es σ₁ last r σ'} (hs : EvalsSeq ρ σ es σ₁) (ht : EvalsTail σ₁ ρ last r σ') :
-    EvalsBody σ ρ (es ++ [last]) r σ' := by
-  induction hs with
-  | nil => exact EvalsBody.last ht
-  | @cons σ e v σ₁ es σ₂ h _ ih =>
-    have := ih ht
-    cases es with
-    | nil => exact EvalsBody.cons h this
-    | cons e' es' => exact EvalsBody.cons h this
 
 theorem EvalsTail.cond_iff {σ ρ t c a l tv σ₁} (ht : Evals σ ρ t (.ok tv) σ₁) (r σ') :
     EvalsTail σ ρ (.cond t c a l) r σ' ↔
